@@ -19,10 +19,40 @@ Fixpoint first_known (r : rstate) (i : N) (h : list step) : kclass :=
     if r_dom r' then (if is_known r' then class_of r' else first_known r' (N.succ i) h') else KNone
   end.
 
-Record case := mk_case { k_case : C17_Check.case; k_sig : Z }.
+(* processor.Get(name): the handler of the last callback of that name that is not a Remove marker *)
+Fixpoint get_model (cs : list cb) (n : string) : option N :=
+  match cs with
+  | [] => None
+  | c :: r => match get_model r n with
+              | Some h => Some h
+              | None => if String.eqb (cb_name c) n && negb (cb_remove c) then Some (cb_hid c) else None
+              end
+  end.
+
+(* the processor after the whole history *)
+Fixpoint final_from (p : proc) (hid : N) (h : list step) : proc :=
+  match h with
+  | [] => p
+  | s :: r => match run_step p s hid with
+              | (Some p', _) => final_from p' (N.succ hid) r
+              | (None, _) => p
+              end
+  end.
+
+(* k_gets: after the last call, Get(name) for every name of the history: (name index, call whose handler
+   it is, or -1 for nil) *)
+Record case := mk_case { k_case : C17_Check.case; k_sig : Z; k_gets : list (Z * Z) }.
+
+Definition gets_agree (c : case) : bool :=
+  let p := final_from (mk_proc [] []) 0%N (c_steps (k_case c)) in
+  forallb (fun g => match get_model (p_cs p) (name_of (w_names (k_case c)) (fst g)) with
+                    | Some h => Z.of_N h =? snd g
+                    | None => snd g =? -1
+                    end) (k_gets c).
+
 
 Definition sig_agrees (c : case) : bool :=
   kcode (first_known r0 0%N (c_steps (k_case c))) =? k_sig c.
 
 Definition check_case (c : case) : N :=
-  code_of (model_agrees (k_case c) && sig_agrees c) (spec_holds (k_case c)).
+  code_of (model_agrees (k_case c) && sig_agrees c && gets_agree c) (spec_holds (k_case c)).
